@@ -110,13 +110,15 @@ def main_layouts():
     ]
 
 
-def onehot_layouts():
-    """One whitespace class at a time (space and CRLF+tab), everything else compact."""
+def onehot_layouts(tier="thorough"):
+    """One whitespace class at a time, everything else compact (thorough: also CRLF+tab with trailing commas)."""
     out = []
     for c in WS_CLASSES:
         out.append(Layout("only-" + c, _ws("", **{c: " "}), " ", '"', False, "self"))
-        out.append(Layout("only-" + c + "-crlf", _ws("", **{c: "\r\n\t"}), " ", '"', True, "self"))
+        if tier == "thorough":
+            out.append(Layout("only-" + c + "-crlf", _ws("", **{c: "\r\n\t"}), " ", '"', True, "self"))
     out.append(Layout("sep-formfeed", _ws(""), " \f ", '"', False, "self"))
+    out.append(Layout("crlf", _ws("\r\n"), "\r\n", '"', True, "self"))
     return out
 
 
